@@ -261,16 +261,19 @@ def _spy_class():
 
 
 def table_logodds(model, rules):
-    """log-odds recomputed from the tables of a fitted pipeline (prior + likelihood of
-    known 1-3-grams), independent of the library's prediction code"""
-    vocab = model.transformer.vocabulary
-    est = model.estimator
-    neg, pos = est.class_prior
+    """log-odds recomputed from the tables of a fitted pipeline (prior + likelihood of known 1-3-grams), independent of
+    the library's prediction code; when the tables are kept in a representation the harness does not know, the
+    model's own public prediction (which part (a) decides against the textbook reference) is used instead"""
+    tabs = core.model_tables(model)
+    if tabs is None:
+        lp = model.predict_log_proba([[str(r) for r in rules]])[0]
+        return lp[1] - lp[0]
+    vocab, (neg, pos), lneg, lpos = tabs
     for g in ngrams([str(r) for r in rules]):
         i = vocab.get(g)
         if i is not None:
-            neg += est.log_likelihood["negative_class"][i]
-            pos += est.log_likelihood["positive_class"][i]
+            neg += lneg[i]
+            pos += lpos[i]
     return pos - neg
 
 
